@@ -21,8 +21,37 @@ attribute/key/index reads only on structure that exists and is never removed, he
 raise; the only exceptions are explicit `raise` (E1/E2/E3/ValueError) and - when the knob
 `unbound_reads` is on and the read is not inside a try - NameError for a possibly-unbound local.
 Termination: every while has a dedicated counter incremented first in its body and bounded by a
-constant; for loops iterate over finite literals / ranges of small ints.
+constant; for loops iterate over finite literals / ranges of small ints; local functions obey a rank
+rule (a function bound to a name mentions only local functions of strictly lower rank, aliases only
+go upwards once a function mentions others), so late binding by name can never close a call cycle.
+
+Shape families (each behind a knob of DEFAULT_CFG, each counted in `meta`, see the check evidence):
+  * function objects that outlive their name (`fn_escape`): a local function is stored under another
+    access path - name alias, functools.partial (with / without bound arguments / with keywords), list,
+    tuple, dict, attribute o.f, an external registry (rt.reg / rt.rcall), a capturing sibling function
+    (one and two levels deep), a default value, a lambda - and called through it (kinds 'h:*' in
+    _Env.bound); its own name is then kept, forgotten, redefined in straight-line code or deleted.
+    Forced shape `shape_escape`: closure over x, stored, x rebound inside a drawn control-flow
+    statement, called through the access path.
+  * nested functions calling local functions of the enclosing function (`fn_capture`).
+  * defs at every statement position of a compound statement (`optfns`): names that hold None or a
+    function (`n0 = None` ... `def n0(q)` as first / middle / last statement of an if arm with an empty
+    or shorter other arm, of a for / while / with / try body), a store to the captured variable after
+    the statement, guarded call after the join (forced shape `shape_defpos`).
+  * every subscript target form (`subscripts`, `containers`): constant, negative, computed index,
+    slice, extended slice, tuple key, attribute subscript (o.v[i]), subscripts inside tuple targets;
+    store / augmented store / del; on the parameters l, d, o.v and on local containers m0 (list), m1 (dict).
+  * `global X` declared by a NESTED function that assigns the module-level X where X also names a local
+    of an enclosing function (`nested_globals`); vf.diffobs observes created / rebound module attributes.
+  * functools.partial objects created WITH keywords (`kwpartials`): module-level P0 / P1 / P2 (their
+    keywords are part of the post-state) and local ones, called with extra / overriding keywords, again
+    and again.
+Pure programs (C02) keep the pure subset: no registry / attribute route, no containers / slices, no
+keyword partials of logging callees, no nested globals; nested functions of pure programs do not mutate
+o / d; with `init_all`, bindings of non-int names made inside a conditional do not outlive it.
 """
+import re
+
 import hypothesis.strategies as st
 
 DEFAULT_NAMES = ['x0', 'x1', 'x2', 'x3']
@@ -48,7 +77,22 @@ DEFAULT_CFG = {
     'def_extras': 25,       # percent of nested defs with a default-value expression / decorator
     'unusual': 0,           # weight of 'unusual literal' expression forms (C17)
     'bare_defs': 0,         # percent of nested defs whose body is only a docstring / `...` / a docstring before the body (C17)
+    # --- shape classes added for the escape / def-position / subscript / nested-global / keyword-partial families
+    'fn_escape': True,      # function objects stored under another access path (alias, partial, list, tuple, dict, attribute,
+                            # registry, capturing closure, default value, lambda) and called through it; names retired afterwards
+    'fn_capture': True,     # nested defs may call local functions of the enclosing function (rank rule keeps this terminating)
+    'optfns': True,         # names holding None-or-function (`n0 = None ... def n0(q)` inside a compound), guarded calls
+    'subscripts': True,     # slice / tuple / computed subscript targets (store, augmented store, del) on l, d, o.v and local containers
+    'containers': True,     # local list / dict variables m0 / m1
+    'nested_globals': 30,   # percent of nested defs declaring a name `global` (an enclosing local's name or G0/G1) and assigning it
+    'kwpartials': True,     # functools.partial objects created WITH keywords (module level P0.. / local), called with extra/overriding keywords
+    'shape_escape': 3,      # weight of the forced shape "closure stored under an alias, variable rebound in control flow, alias called"
+    'shape_defpos': 2,      # weight of the forced shape "def at a drawn position of a compound statement, store, call after the join"
 }
+
+HOLD_NAMES = ['s0', 's1', 's2']
+OPT_NAMES = ['n0', 'n1']
+LIST_NAME, DICT_NAME = 'm0', 'm1'
 
 
 class _Env(object):
@@ -70,6 +114,7 @@ class _Env(object):
     self.has_o = True      # o, d, l are in scope
     self.int_return = False  # function must return ints (helpers, nested defs)
     self.catchable = ()      # exception class names some enclosing handler of this function catches
+    self.callable_outer = ()  # local functions of enclosing functions this (nested) function may call
 
   def copy(self):
     e = _Env()
@@ -120,6 +165,11 @@ class Gen(object):
     self.helpers = []      # (name, nparams)
     self.markers = 0
     self.assign_stack = []
+    self.top_names = list(self.cfg['names'])
+    self.top_fn_names = list(self.cfg['fn_names'])   # rank order of the local function names of the function under test
+    self.fn_callers = set()   # top-level function names that (may) hold a function calling other local functions
+    self.holder_kind = {}     # holder name -> kind, fixed per function so that a join never mixes call forms
+    self.mpartials = []       # module-level partial objects with keywords: (name, [call forms])
 
   # ---- helpers ------------------------------------------------------------------------------
   def note(self, k, n=1):
@@ -177,8 +227,21 @@ class Gen(object):
       if cfg['comprehensions'] and depth < 1:
         kinds += ['comp']
       fns = [n for n, k in env.bound.items() if k == 'fn']
-      if fns and cfg['calls'] and effects:
+      # local functions have effects only when the program may have them: callable in effect-free
+      # positions of pure programs (C02), never in effect-free positions of effectful programs
+      callok = cfg['calls'] and (effects or cfg['pure'])
+      if fns and callok:
         kinds += ['fncall', 'fncall']
+      if callok and any(k.startswith('h:') for k in env.bound.values()):
+        kinds += ['holdcall'] * 3
+      if callok and any(k == 'optfn' for k in env.bound.values()):
+        kinds += ['optcall'] * 2
+      if self.mpartials and effects and cfg['calls']:
+        kinds += ['mpartial']
+      if any(k in ('list', 'dict') for k in env.bound.values()):
+        kinds += ['cont'] * 2
+      if cfg['subscripts'] and cfg['composites'] and env.has_o and not cfg['pure']:
+        kinds += ['subread']
       if cfg['unbound_reads'] and env.maybe and env.trydepth == 0 and not cfg['pure']:
         kinds += ['maybe']
     if cfg['unusual'] and depth < 2:
@@ -291,8 +354,64 @@ class Gen(object):
     if k == 'fncall':
       self.note('local_fn_call')
       fns = sorted(n for n, kk in env.bound.items() if kk == 'fn')
-      return '%s(%s)' % (self.choice(fns), e())
+      f_ = self.choice(fns)
+      if f_ in env.callable_outer:
+        self.note('call_of_enclosing_local_fn_from_nested_fn')
+      return '%s(%s)' % (f_, e())
+    if k == 'holdcall':
+      return self.holdcall(env, None, e)
+    if k == 'optcall':
+      self.note('optional_fn_guarded_call')
+      n_ = self.choice(sorted(n for n, kk in env.bound.items() if kk == 'optfn'))
+      return self.choice(['(%s(%s) if %s is not None else %s)', '(%s(%s) if %s else %s)']) % (n_, e(), n_, e())
+    if k == 'mpartial':
+      self.note('module_kwpartial_call')
+      name, forms = self.choice(self.mpartials)
+      form = self.choice(forms)
+      if '=' in form or '**' in form:
+        self.note('kwpartial_call_with_keyword')
+      return form % ((name,) + tuple(e() for _ in range(form.count('%s') - 1)))
+    if k == 'cont':
+      self.note('local_container_read')
+      n_ = self.choice(sorted(n for n, kk in env.bound.items() if kk in ('list', 'dict')))
+      if env.bound[n_] == 'list':
+        return self.choice(['%s[0]', '%s[-1]', 'len(%s)', 'sum(%s)', '%s[1:2][0]', 'sum(%s[0:2])']) % n_
+      return self.choice(["%s['k']", 'len(%s)', '%s.get((0, 1), 0)', "%s.get('k', 0)"]) % n_
+    if k == 'subread':
+      self.note('slice_or_tuple_subscript_read')
+      return self.choice(['d.get((0, 1), 0)', 'o.v[0]', 'o.v[-1]', 'len(o.v)', 'sum(l[1:2])', 'sum(l[0:2])', 'len(l[::2])', 'sum(o.v[:])', 'l[0:1][0]', 'o.v[1:2][0]'])
     raise AssertionError(k)
+
+  HOLD_CALLS = {
+      'h:alias': ['%(s)s(%(e)s)'],
+      'h:partial1': ['%(s)s(%(e)s)'],
+      'h:partial0': ['%(s)s()'],
+      'h:list': ['%(s)s[0](%(e)s)', '%(s)s[-1](%(e)s)', 'sum([zf(%(e)s) for zf in %(s)s])'],
+      'h:tuple': ['%(s)s[0](%(e)s)', '%(s)s[-1](%(e)s)'],
+      'h:dict': ["%(s)s['f'](%(e)s)"],
+      'h:attr': ['o.f(%(e)s)'],
+      'h:reg': ['rcall(%(e)s)'],
+      'h:kwp': ['%(s)s(%(e)s)', '%(s)s(%(e)s, k=%(e)s)', '%(s)s(%(e)s, y=%(e)s)', '%(s)s(%(e)s, **{"k": %(e)s})', '%(s)s(%(e)s, %(e)s)'],
+      'h:kwph': ['%(s)s(%(e)s)', '%(s)s(%(e)s, y=%(e)s)', '%(s)s(%(e)s, **{"y": %(e)s})'],
+      'h:kwpf': ['%(s)s(%(e)s)', '%(s)s(%(e)s, r=%(e)s)'],
+  }
+
+  def holdcall(self, env, key, e):
+    """A call of a function object through the access path it was stored under."""
+    if key is None:
+      key = self.choice(sorted(n for n, kk in env.bound.items() if kk.startswith('h:')))
+    kind = env.bound[key]
+    form = self.choice(self.HOLD_CALLS[kind])
+    self.note('call_through:' + kind[2:])
+    if kind.startswith('h:kwp') and ('=' in form or '**' in form):
+      self.note('kwpartial_call_with_keyword')
+    out = ''
+    rest = form.replace('%(s)s', key)
+    while '%(e)s' in rest:
+      i = rest.index('%(e)s')
+      out += rest[:i] + e()
+      rest = rest[i + 5:]
+    return out + rest
 
   def cond(self, env):
     """A test expression; mostly data dependent."""
@@ -338,9 +457,28 @@ class Gen(object):
       kinds += ['lam']
     if cfg['defs'] and any(kk == 'fn' for kk in env.bound.values()):
       kinds += ['fnalias']
+      if cfg['fn_escape']:
+        kinds += ['hold']
+    if cfg['defs'] and deep and env.fn_depth < 2:
+      if cfg['fn_escape']:
+        kinds += ['shape_escape'] * cfg['shape_escape']
+      if cfg['optfns']:
+        kinds += ['shape_defpos'] * cfg['shape_defpos']
+    if cfg['defs'] and cfg['optfns']:
+      kinds += ['optinit']
+    if cfg['subscripts'] and cfg['composites'] and env.has_o and not cfg['pure']:
+      kinds += ['subs']
+    if cfg['containers'] and not cfg['pure']:
+      kinds += ['continit']
+      if any(kk in ('list', 'dict') for kk in env.bound.values()):
+        kinds += ['contmut']
+    if cfg['kwpartials'] and effects and cfg['calls']:
+      kinds += ['kwpartial']
     if effects:
       kinds += ['effect'] * 2
-    if cfg['composites'] and env.has_o:
+    if cfg['composites'] and env.has_o and not (cfg['pure'] and env.fn_depth > 0):
+      # (pure programs call their nested functions, also from untaken branches under a tracing backend:
+      # a nested function must not mutate o / d)
       kinds += ['setattr', 'setkey']
     if cfg['jumps'] and not env.in_finally:
       if env.loop:
@@ -451,6 +589,56 @@ class Gen(object):
       e2 = env.copy()
       e2.bound[f] = 'fn'
       return e2
+    if k == 'hold':
+      return self.hold_stmt(env, ind, lines)[0]
+    if k == 'shape_escape':
+      return self.shape_escape(env, ind, lines)
+    if k == 'shape_defpos':
+      return self.shape_defpos(env, ind, lines)
+    if k == 'optinit':
+      cands = [n for n in OPT_NAMES if env.bound.get(n, 'optfn') == 'optfn' and n not in env.readonly]
+      if not cands:
+        lines.append(sp + 'pass')
+        return env
+      n_ = self.choice(cands)
+      self.note('optional_fn_none_init')
+      lines.append('%s%s = None' % (sp, n_))
+      e2 = env.copy()
+      e2.bound[n_] = 'optfn'
+      return e2
+    if k == 'subs':
+      return self.subscript_stmt(env, ind, lines)
+    if k == 'continit':
+      n_ = self.choice([LIST_NAME, DICT_NAME])
+      if n_ in env.readonly:
+        lines.append(sp + 'pass')
+        return env
+      self.note('local_container_bind')
+      if n_ == LIST_NAME:
+        lines.append('%s%s = [%s]' % (sp, n_, ', '.join(self.expr(env, 1) for _ in range(self.integer(2, 3)))))
+      else:
+        lines.append("%s%s = {'k': %s}" % (sp, n_, self.expr(env, 1)))
+      e2 = env.copy()
+      e2.bound[n_] = 'list' if n_ == LIST_NAME else 'dict'
+      return e2
+    if k == 'contmut':
+      return self.subscript_stmt(env, ind, lines, local=True)
+    if k == 'kwpartial':
+      # a partial object created WITH keywords, kept in a local and called (several times) later
+      srcs = [('h:kwp', 'ext2', 'k')]
+      srcs += [('h:kwph', hn, 'y') for hn, n_ in self.helpers if n_ == 2]
+      kind, fn_, kw = self.choice(srcs)
+      cands = [n for n in HOLD_NAMES if self.holder_kind.get(n, kind) == kind and n not in env.readonly]
+      if not cands:
+        lines.append(sp + 'pass')
+        return env
+      key = self.choice(cands)
+      self.holder_kind[key] = kind
+      self.note('kwpartial_created')
+      lines.append('%s%s = partial(%s, %s=%s)' % (sp, key, fn_, kw, self.expr(env, 1)))
+      e2 = env.copy()
+      e2.bound[key] = kind
+      return e2
     if k == 'fnalias':
       # a local function reached under another name (alias): closure liveness must follow it
       src_fns = sorted(n for n, kk in env.bound.items() if kk == 'fn')
@@ -459,7 +647,7 @@ class Gen(object):
         lines.append(sp + 'pass')
         return env
       a_, b_ = self.choice(dst), self.choice(src_fns)
-      if a_ == b_:
+      if a_ == b_ or not self.alias_ok(a_, b_):
         lines.append(sp + 'pass')
         return env
       self.note('local_fn_alias')
@@ -507,6 +695,433 @@ class Gen(object):
     if k == 'def':
       return self.def_stmt(env, ind, lines)
     raise AssertionError(k)
+
+  # ---- local function objects: ranks, aliases, escape routes ------------------------------------
+  def fn_rank(self, name):
+    """Rank of a local function name of the function under test (None: not capturable). A function
+    bound to a name may only call names of strictly lower rank, which keeps every call chain finite
+    whatever the names are rebound to later (late binding)."""
+    return self.top_fn_names.index(name) if name in self.top_fn_names else None
+
+  def alias_ok(self, dst, src):
+    """`dst = src` keeps the rank invariant: src never held a calling function, or dst ranks higher."""
+    if src not in self.fn_callers:
+      return True
+    rd, rs = self.fn_rank(dst), self.fn_rank(src)
+    if rd is not None and rs is not None and rd > rs:
+      self.fn_callers.add(dst)
+      return True
+    return False
+
+  def hold_stmt(self, env, ind, lines, src=None, route=None):
+    """Stores a local function object under another access path. Returns (env, key) - key None if
+    nothing was generated."""
+    sp = '  ' * ind
+    cfg = self.cfg
+    effects = cfg['tracer'] and not cfg['pure']
+    fns = sorted(n for n, kk in env.bound.items() if kk == 'fn')
+    if not fns:
+      lines.append(sp + 'pass')
+      return env, None
+    f = src or self.choice(fns)
+    routes = ['alias', 'alias', 'partial1', 'partial0', 'list', 'tuple', 'dict']
+    if effects and env.fn_depth == 0:
+      if env.has_o and cfg['composites']:
+        routes += ['attr', 'attr']
+      if cfg['calls']:
+        routes += ['reg', 'reg']
+    route = route or self.choice(routes)
+    kind = 'h:' + route
+    if route == 'attr':
+      key = 'o.f'
+    elif route == 'reg':
+      key = '<reg>'
+    else:
+      cands = [n for n in HOLD_NAMES if self.holder_kind.get(n, kind) == kind and n not in env.readonly]
+      if not cands:
+        lines.append(sp + 'pass')
+        return env, None
+      key = self.choice(cands)
+      self.holder_kind[key] = kind
+    self.note('escape:' + route)
+    self.note('escape')
+    if route == 'alias':
+      lines.append('%s%s = %s' % (sp, key, f))
+    elif route == 'partial1':
+      lines.append('%s%s = partial(%s)' % (sp, key, f))
+    elif route == 'partial0':
+      lines.append('%s%s = partial(%s, %s)' % (sp, key, f, self.expr(env, 1)))
+    elif route == 'kwpf':
+      lines.append('%s%s = partial(%s, r=%s)' % (sp, key, f, self.expr(env, 1)))
+      self.note('kwpartial_created')
+    elif route == 'list':
+      other = self.choice(fns)
+      lines.append('%s%s = [%s]' % (sp, key, f if other == f else self.choice(['%s, %s' % (f, other), '%s, %s' % (other, f)])))
+    elif route == 'tuple':
+      lines.append('%s%s = (%s,)' % (sp, key, f))
+    elif route == 'dict':
+      lines.append("%s%s = {'f': %s}" % (sp, key, f))
+    elif route == 'attr':
+      lines.append('%so.f = %s' % (sp, f))
+    elif route == 'reg':
+      lines.append('%sreg(%s)' % (sp, f))
+    e2 = env.copy()
+    e2.bound[key] = kind
+    return e2, key
+
+  def retire(self, env, f, ind, lines, by_name=False):
+    """After a function object was stored elsewhere: what happens to its own name. by_name: the holder
+    looks the name up at call time (capturing closure / lambda), so the name must stay bound."""
+    sp = '  ' * ind
+    cfg = self.cfg
+    hows = ['keep', 'forget', 'forget']
+    if f in cfg['fn_names'] and f not in env.readonly:
+      hows += ['redefine', 'redefine']
+      if cfg['del'] and not cfg['pure'] and not by_name and env.loop == 0 and env.trydepth == 0:
+        hows += ['del']
+    how = self.choice(hows)
+    self.note('escaped_fn_name:' + how)
+    e2 = env.copy()
+    if how == 'forget':
+      # the name stays bound at run time but is never mentioned again (a later def may rebind it)
+      if not by_name:
+        e2.bound.pop(f, None)
+    elif how == 'redefine':
+      tiny = _Env()
+      tiny.bound = {'q': 'int'}
+      tiny.fn_depth = env.fn_depth + 1
+      tiny.has_o = False
+      lines.append('%sdef %s(q):' % (sp, f))
+      lines.append('%s  return %s' % (sp, self.expr(tiny, 1, False)))
+      self.note('nested_def')
+      self.note('local_fn_redefined_in_straight_line_code')
+    elif how == 'del':
+      lines.append('%sdel %s' % (sp, f))
+      self.note('del')
+      e2.bound.pop(f, None)
+    return e2
+
+  def small_targets(self, env):
+    """Already bound, assignable int locals (assigning them does not change the binding state)."""
+    return sorted(n for n in self.int_atoms(env) if n in self.cfg['names'] and n not in env.readonly and n not in env.declared)
+
+  def closure_def(self, env, ind, lines, f, x, sig='q'):
+    """def f(sig): return (x <op> <expr over the parameters>) - a closure reading the enclosing x."""
+    sp = '  ' * ind
+    tiny = _Env()
+    tiny.bound = {'q': 'int', x: 'int'}
+    if 'r=' in sig:
+      tiny.bound['r'] = 'int'
+    tiny.fn_depth = env.fn_depth + 1
+    tiny.has_o = False
+    tiny.int_return = True
+    tiny.trydepth = env.trydepth
+    lines.append('%sdef %s(%s):' % (sp, f, sig))
+    lines.append('%s  return (%s %s %s)' % (sp, x, self.choice(['+', '-', '+']), self.expr(tiny, 1)))
+    self.note('nested_def')
+    self.note('closure_read')
+
+  def rebind_in_control_flow(self, env, ind, lines, x):
+    """x (definitely bound) is rebound inside a drawn control-flow statement. Returns the form."""
+    sp = '  ' * ind
+    forms = ['if', 'if', 'if_aug', 'for', 'for_aug', 'while', 'for_if', 'if_if']
+    if not self.excl('no_all_branch_rebind_in_nested_block'):
+      forms += ['if_else']
+    if self.cfg['with'] and not self.cfg['pure']:
+      forms += ['with_if']
+    form = self.choice(forms)
+    self.note('rebind_in:' + form)
+    e = lambda: self.expr(env, 1)
+    self.mark(x)
+    if form in ('if', 'if_aug', 'if_else', 'if_if'):
+      self.note('if')
+      lines.append('%sif %s:' % (sp, self.cond(env)))
+      if form == 'if_if':
+        lines.append('%s  if %s:' % (sp, self.cond(env)))
+        lines.append('%s    %s = %s' % (sp, x, e()))
+      else:
+        lines.append('%s  %s %s %s' % (sp, x, '+=' if form == 'if_aug' else '=', e()))
+      if form == 'if_else':
+        lines.append('%selse:' % sp)
+        lines.append('%s  %s = %s' % (sp, x, e()))
+    elif form in ('for', 'for_aug', 'for_if'):
+      self.note('for')
+      if env.loop:
+        self.note('nested_loop')
+      tg = 'i%d' % self.newk()
+      lines.append('%sfor %s in range(%d):' % (sp, tg, self.integer(0, 3)))
+      self.directive(lines, sp)
+      if form == 'for_if':
+        lines.append('%s  if %s:' % (sp, self.cond(env)))
+        lines.append('%s    %s = %s' % (sp, x, e()))
+      else:
+        lines.append('%s  %s %s %s' % (sp, x, '+=' if form == 'for_aug' else '=', e()))
+    elif form == 'while':
+      self.note('while')
+      if env.loop:
+        self.note('nested_loop')
+      w = 'w%d' % self.wcount
+      self.wcount += 1
+      lines.append('%s%s = 0' % (sp, w))
+      lines.append('%swhile %s < %d:' % (sp, w, self.integer(0, self.cfg['wbound'])))
+      self.directive(lines, sp)
+      lines.append('%s  %s += 1' % (sp, w))
+      lines.append('%s  %s = %s' % (sp, x, e()))
+    elif form == 'with_if':
+      self.note('with')
+      lines.append('%swith CM(%d):' % (sp, self.newk()))
+      lines.append('%s  if %s:' % (sp, self.cond(env)))
+      lines.append('%s    %s = %s' % (sp, x, e()))
+    return form
+
+  def shape_escape(self, env, ind, lines):
+    """Forced shape: a nested def reading an enclosing variable is stored under another access path
+    (every route a function object can outlive its name by); its own name is kept / forgotten /
+    redefined in straight-line code / deleted; the variable is rebound inside control flow; the stored
+    function is called through the access path."""
+    sp = '  ' * ind
+    cfg = self.cfg
+    effects = cfg['tracer'] and not cfg['pure']
+    fcands = [n for n in cfg['fn_names'] if env.bound.get(n, 'fn') == 'fn' and n not in env.readonly]
+    if not fcands:
+      lines.append(sp + 'pass')
+      return env
+    self.note('shape:closure_escape')
+    self.budget -= 2
+    x = self.target(env)
+    if env.bound.get(x) != 'int':
+      lines.append('%s%s = %s' % (sp, x, self.expr(env, 1)))
+      env = self.bind(env, x)
+    routes = ['store'] * 5 + ['kwpf']
+    f = self.choice(fcands)
+    g = None
+    if env.fn_depth == 0 and cfg['fn_capture'] and len(self.top_fn_names) >= 2:
+      lo, hi = self.top_fn_names[0], self.top_fn_names[-1]
+      if env.bound.get(lo, 'fn') == 'fn' and env.bound.get(hi, 'fn') == 'fn':
+        routes += ['closure', 'closure', 'closure2', 'closure2', 'default']
+        if not self.excl('no_lambda_capture_across_rebind') and cfg['lambdas']:
+          routes += ['lambda']
+    route = self.choice(routes)
+    by_name = route in ('closure', 'closure2', 'lambda')
+    if route in ('closure', 'closure2', 'default', 'lambda'):
+      f, g = self.top_fn_names[0], self.top_fn_names[-1]
+    self.closure_def(env, ind, lines, f, x, 'q, r=%s' % self.expr(env, 1) if route == 'kwpf' else 'q')
+    env = env.copy()
+    env.bound[f] = 'fn'
+    key = None
+    if route == 'store':
+      env, key = self.hold_stmt(env, ind, lines, src=f)
+    elif route == 'kwpf':
+      env, key = self.hold_stmt(env, ind, lines, src=f, route='kwpf')
+    else:
+      tiny = _Env()
+      tiny.bound = {'q': 'int'}
+      tiny.fn_depth = env.fn_depth + 1
+      tiny.has_o = False
+      self.note('escape:' + route)
+      self.note('escape')
+      self.note('nested_def')
+      if route == 'closure':
+        lines.append('%sdef %s(q):' % (sp, g))
+        lines.append('%s  return (%s(q) + %s)' % (sp, f, self.expr(tiny, 1)))
+      elif route == 'closure2':
+        # a function nested two levels below f's definition calls f
+        lines.append('%sdef %s(q):' % (sp, g))
+        lines.append('%s  def g0(r):' % sp)
+        lines.append('%s    return %s(r)' % (sp, f))
+        lines.append('%s  return (g0(q) + %s)' % (sp, self.expr(tiny, 1)))
+      elif route == 'default':
+        lines.append('%sdef %s(q, r=%s):' % (sp, g, f))
+        lines.append('%s  return (r(q) + %s)' % (sp, self.expr(tiny, 1)))
+      else:
+        lines.append('%s%s = lambda q: (%s(q) + %s)' % (sp, g, f, self.expr(tiny, 1, False)))
+        self.note('lambda_def')
+      if by_name:
+        self.fn_callers.add(g)
+        self.note('call_of_enclosing_local_fn_from_nested_fn')
+      env.bound[g] = 'fn'
+    if key is None and g is None:
+      return env
+    env = self.retire(env, f, ind, lines, by_name=by_name)
+    self.rebind_in_control_flow(env, ind, lines, x)
+    e = lambda: self.expr(env, 1)
+    call = self.holdcall(env, key, e) if key is not None else '%s(%s)' % (g, e())
+    y = self.target(env)
+    if effects and self.chance(40):
+      lines.append('%st(%s)' % (sp, call))
+      return env
+    lines.append('%s%s = %s' % (sp, y, call))
+    return self.bind(env, y)
+
+  def shape_defpos(self, env, ind, lines):
+    """Forced shape: a def (closure over x) at a drawn position - first / middle / last statement -
+    of a drawn compound statement (if with empty or shorter other arm, for, while, with, try); the
+    name holds None before, x is stored after the statement, the function is called (guarded) later."""
+    sp = '  ' * ind
+    cfg = self.cfg
+    effects = cfg['tracer'] and not cfg['pure']
+    cands = [n for n in OPT_NAMES if env.bound.get(n, 'optfn') == 'optfn' and n not in env.readonly]
+    if not cands:
+      lines.append(sp + 'pass')
+      return env
+    self.budget -= 2
+    n_ = self.choice(cands)
+    x = self.target(env)
+    if env.bound.get(x) != 'int':
+      lines.append('%s%s = %s' % (sp, x, self.expr(env, 1)))
+      env = self.bind(env, x)
+    if env.bound.get(n_) != 'optfn':
+      lines.append('%s%s = None' % (sp, n_))
+      env = env.copy()
+      env.bound[n_] = 'optfn'
+    comps = ['if', 'if', 'if_else', 'for', 'while']
+    if cfg['with'] and not cfg['pure']:
+      comps.append('with')
+    if cfg['try'] and not cfg['pure']:
+      comps.append('try')
+    comp = self.choice(comps)
+    pos = self.choice(['first', 'middle', 'last', 'last'])
+    self.note('shape:def_position:%s/%s' % (comp, pos))
+    self.note('shape:def_position')
+    if pos == 'last' and comp in ('for', 'while'):
+      self.note('shape:def_last_in_loop_body')
+    if pos != 'first' and comp in ('if', 'if_else'):
+      self.note('shape:def_after_statement_on_if_arm')
+    e = lambda: self.expr(env, 1)
+    small = self.small_targets(env) or [x]
+    used = []
+
+    def simple(sp2):
+      y = self.choice(small)
+      used.append(y)
+      self.mark(y)
+      lines.append('%s%s = %s' % (sp2, y, e()))
+
+    if comp in ('if', 'if_else'):
+      self.note('if')
+      lines.append('%sif %s:' % (sp, self.cond(env)))
+    elif comp == 'for':
+      self.note('for')
+      if env.loop:
+        self.note('nested_loop')
+      lines.append('%sfor i%d in range(%d):' % (sp, self.newk(), self.integer(0, 3)))
+      self.directive(lines, sp)
+    elif comp == 'while':
+      self.note('while')
+      if env.loop:
+        self.note('nested_loop')
+      w = 'w%d' % self.wcount
+      self.wcount += 1
+      lines.append('%s%s = 0' % (sp, w))
+      lines.append('%swhile %s < %d:' % (sp, w, self.integer(0, cfg['wbound'])))
+      self.directive(lines, sp)
+      lines.append('%s  %s += 1' % (sp, w))
+    elif comp == 'with':
+      self.note('with')
+      lines.append('%swith CM(%d):' % (sp, self.newk()))
+    else:
+      self.note('try')
+      lines.append('%stry:' % sp)
+    for _ in range({'first': 0, 'middle': 1}.get(pos, self.integer(1, 2))):
+      simple(sp + '  ')
+    self.closure_def(env, ind + 1, lines, n_, x)
+    self.note('optional_fn_def')
+    for _ in range(0 if pos == 'last' else 1):
+      simple(sp + '  ')
+    if comp == 'if_else':
+      other = [y for y in small if y not in used]
+      if other and self.chance(70):
+        lines.append('%selse:' % sp)
+        y = self.choice(other)
+        self.mark(y)
+        lines.append('%s  %s = %s' % (sp, y, e()))
+    elif comp == 'try':
+      self.note('except')
+      lines.append('%sexcept %s:' % (sp, self.choice(['E1', 'E2', 'ValueError'])))
+      lines.append('%s  %s' % (sp, 't(%s)' % e() if effects else 'pass'))
+    if self.chance(85):
+      self.mark(x)
+      lines.append('%s%s %s %s' % (sp, x, self.choice(['=', '=', '+=']), e()))
+      self.note('store_after_def_in_compound')
+    call = self.choice(['(%s(%s) if %s is not None else %s)', '(%s(%s) if %s else %s)']) % (n_, e(), n_, e())
+    self.note('optional_fn_guarded_call')
+    if effects and self.chance(40):
+      lines.append('%st(%s)' % (sp, call))
+      return env
+    y = self.target(env)
+    lines.append('%s%s = %s' % (sp, y, call))
+    return self.bind(env, y)
+
+  # ---- subscript target forms -------------------------------------------------------------------
+  def subscript_stmt(self, env, ind, lines, local=False):
+    """Stores / augmented stores / deletions through every subscript target form: constant, computed
+    and negative index, slice, extended slice, tuple (multi-dimensional) key, nested attribute
+    subscript, inside a tuple target. Index and bound expressions are effect free; every form keeps
+    len(l) >= 2, len(o.v) >= 2, d['k'] present (totality of the reads elsewhere)."""
+    sp = '  ' * ind
+    e = lambda: self.expr(env, 1)
+
+    def pe():
+      # index / bound expressions: effect free and never a possibly-unbound read (the order of
+      # subscript and value evaluation must not be observable - L08 under Feature.LISTS)
+      saved = self.cfg['unbound_reads']
+      self.cfg['unbound_reads'] = False
+      try:
+        return self.expr(env, 2, False)
+      finally:
+        self.cfg['unbound_reads'] = saved
+
+    tracked = getattr(env, 'lists', None) is not None   # a sub-grammar tracks list lengths itself (vf.c01_lists)
+    if local:
+      n_ = self.choice(sorted(n for n, kk in env.bound.items() if kk in ('list', 'dict')))
+      lst = env.bound[n_] == 'list'
+    else:
+      n_ = self.choice(['d', 'o.v'] if tracked else ['l', 'l', 'd', 'o.v'])
+      lst = n_ != 'd'
+    if lst and n_ == 'l':
+      # the parameter l: other parts of the grammar read l[0] / l[-1] and may track its length, so
+      # these forms never shrink it and only assume len(l) >= 1
+      forms = ['N[1:2] = [E]', 'N[0:1] = [E, E]', 'N[:0] = [E]', 'N[len(N):] = [E]', 'N[-1:] = [E]', 'N[::2] = N[::2]',
+               'N[P % len(N)] = E', 'N[0] += E', 'N[-1] -= E', 'del N[len(N):]', 'N[len(N):] = [E];del N[-1:]', 'N[0:1], X = [E], E',
+               'N[0], N[-1] = N[-1], N[0]', 'N[0:2] = N[1::-1]', 'N[:] = N', 'N[0:0] = [E];del N[0:1]', 'N[::-1] = N']
+    elif lst:
+      forms = ['N[1:2] = [E]', 'N[0:1] = [E, E]', 'N[:0] = [E]', 'N[len(N):] = [E]', 'N[-1:] = [E]', 'N[::2] = N[::2]',
+               'N[P % 2] = E', 'N[1] += E', 'N[-1] -= E', 'del N[2:3]', 'del N[5:]', 'del N[2::2]', 'N[0:1], X = [E], E',
+               'N[0], N[1] = N[1], N[0]', 'N[0:2] = N[1::-1]', 'N[:] = N']
+      if local:
+        forms += ['N.append(E)', 'N[0] = E']
+    else:
+      forms = ['N[0, 1] = E', 'N[1, P % 2] = E', 'N[0, 1] = E;N[0, 1] += E', 'N[2, 2] = E;del N[2, 2]', 'N[(0, 1)] = E',
+               'N[0, 1], X = E, E', "N['k'], N[0, 1] = E, E", 'N[0, 1] = E;del N[0, 1]']
+      if local:
+        forms += ["N['k'] = E", "N['k'] += E"]
+    form = self.choice(forms)
+    self.note('subscript_target:' + ('local:' if local else '') + form.replace('N', 'c').replace(' ', ''))
+    self.note('subscript_target')
+    if 'del ' in form:
+      self.note('subscript_target_del')
+    self.note('composite_write')
+    e2 = env
+    x = None
+    if 'X' in form:
+      x = self.target(env)
+    for part in form.split(';'):
+      out = ''
+      for ch in part:
+        if ch == 'N':
+          out += n_
+        elif ch == 'E':
+          out += e()
+        elif ch == 'P':
+          out += pe()
+        elif ch == 'X':
+          out += x
+        else:
+          out += ch
+      lines.append(sp + out)
+    if x is not None:
+      e2 = self.bind(env, x)
+    return e2
 
   def mark(self, *names):
     for s_ in self.assign_stack:
@@ -585,6 +1200,15 @@ class Gen(object):
       return None
     j = _join(outs, env)
     j.depth = env.depth
+    if self.cfg['init_all']:
+      # C02 domain: every variable is definitely assigned before every syntactic read, also when a
+      # tracing backend runs the untaken branch (a branch ending in a jump binds nothing, yet the code
+      # after the statement is traced). Int locals are initialised at function top; names of the other
+      # kinds (functions, stored functions, containers) bound inside the conditional do not outlive it.
+      for n in list(j.bound):
+        if j.bound[n] != 'int' and env.bound.get(n) != j.bound[n]:
+          self.note('init_all:binding_confined_to_conditional')
+          del j.bound[n]
     return self.restore(j, env)
 
   def restore(self, j, env):
@@ -893,11 +1517,15 @@ class Gen(object):
   def def_stmt(self, env, ind, lines):
     sp = '  ' * ind
     cfg = self.cfg
-    f = self.choice(cfg['fn_names'])
-    if env.bound.get(f, 'fn') != 'fn':
+    opt = sorted(n for n, kk in env.bound.items() if kk == 'optfn' and n not in env.readonly) if cfg['optfns'] else []
+    f = self.choice(list(cfg['fn_names']) + opt)
+    fkind = 'optfn' if f in opt else 'fn'
+    if env.bound.get(f, 'fn') != fkind:
       lines.append(sp + 'pass')
       return env
     self.note('nested_def')
+    if fkind == 'optfn':
+      self.note('optional_fn_def')
     inner = _Env()
     inner.fn_depth = env.fn_depth + 1
     inner.depth = env.depth + 1
@@ -907,6 +1535,21 @@ class Gen(object):
     captured = dict((n, kk) for n, kk in env.bound.items() if kk == 'int')
     inner.bound = dict(captured)
     inner.bound['q'] = 'int'
+    # local containers are captured too (mutated in place or read, never rebound inside)
+    conts = dict((n, kk) for n, kk in env.bound.items() if kk in ('list', 'dict'))
+    inner.bound.update(conts)
+    # local functions of the enclosing function(s) this def may call: strictly lower rank only
+    outer_fns = []
+    if cfg['fn_capture']:
+      if env.fn_depth == 0:
+        r = self.fn_rank(f)
+        if r is not None:
+          outer_fns = [n for n, kk in env.bound.items() if kk == 'fn' and self.fn_rank(n) is not None and self.fn_rank(n) < r]
+      else:
+        outer_fns = [n for n in env.callable_outer if env.bound.get(n) == 'fn']
+    for n in outer_fns:
+      inner.bound[n] = 'fn'
+    inner.callable_outer = tuple(sorted(outer_fns))
     extras = cfg['def_extras'] and self.chance(cfg['def_extras'])
     if extras:
       self.note('def_with_default_and_decorator')
@@ -931,7 +1574,7 @@ class Gen(object):
       if form not in ('doc_then_body', 'doc_multiline_then_body'):
         lines.append(sp + {'doc_only': '  """doc %s"""' % f, 'ellipsis_only': '  ...', 'const_only': '  17'}[form])
         e2 = env.copy()
-        e2.bound[f] = 'fn'
+        e2.bound[f] = fkind
         return e2
       if form == 'doc_multiline_then_body':
         # docstring lines with trailing blanks, whitespace-only lines, tabs, quotes and backslashes
@@ -950,9 +1593,28 @@ class Gen(object):
         self.note('closure_nonlocal_write')
         body.append('%s  nonlocal %s' % (sp, x))
         inner.declared = {x}
+    gl = []
+    if cfg['nested_globals'] and cfg['globals'] and not cfg['pure'] and self.chance(cfg['nested_globals']):
+      # `global X` declared by a NESTED function that assigns the module-level X, where X is (also) the
+      # name of a local of an enclosing function - or a module global the enclosing function reads /
+      # declares itself. The enclosing function's own X must stay what it is.
+      pool = [n for n in cfg['names'] if n not in nl] + [n for n in self.top_names if n not in cfg['names'] and n not in nl]
+      pool += ['G0', 'G1']
+      x = self.choice(pool)
+      gl = [x]
+      self.note('nested_global_decl')
+      self.note('nested_global_decl:' + ('module_global' if x in ('G0', 'G1') else
+                                         'name_of_enclosing_local' if x in cfg['names'] else 'name_of_outer_enclosing_local'))
+      body.append('%s  global %s' % (sp, x))
+      inner.bound.pop(x, None)
+      body.append('%s  %s = %s' % (sp, x, self.expr(inner, 1)))
+      inner.bound[x] = 'int'
+      inner.declared = set(inner.declared) | {x}
     # captured names not declared nonlocal are read-only inside (assigning would make them local)
-    inner.readonly = set(captured) - set(nl)
+    inner.readonly = (set(captured) | set(conts) | set(outer_fns) | set(n for n in env.readonly if n in inner.bound)) - set(nl) - set(gl)
     saved = (cfg['names'], cfg['fn_names'], cfg.get('raise', True), self.budget)
+    saved_hk = self.holder_kind
+    self.holder_kind = {}
     cfg['names'] = ['u0', 'u1'] if inner.fn_depth == 1 else ['v%d' % inner.fn_depth, 'y%d' % inner.fn_depth]
     cfg['fn_names'] = ['g0']
     cfg['raise'] = False   # exceptions raised by a callee are outside the class
@@ -970,17 +1632,25 @@ class Gen(object):
       used = start - self.budget
       cfg['names'], cfg['fn_names'], cfg['raise'] = saved[0], saved[1], saved[2]
       self.budget = saved[3] - used
+      self.holder_kind = saved_hk
     lines.extend(body)
     txt = '\n'.join(body)
     if any(c in txt for c in captured if c in saved[0]):
       self.note('closure_read')
+    if any(re.search(r'\b%s\b' % re.escape(n), txt) for n in outer_fns):
+      # this function mentions local functions of the enclosing function (late binding by name): it may
+      # call them directly, through a local alias or through a container it builds
+      self.note('call_of_enclosing_local_fn_from_nested_fn')
+      if env.fn_depth == 0:
+        self.fn_callers.add(f)
     e2 = env.copy()
-    e2.bound[f] = 'fn'
+    e2.bound[f] = fkind
     return e2
 
   # ---- whole functions -----------------------------------------------------------------------
   def function(self, name, params, ind, env, final_return=True, budget=None):
     self.budget = budget if budget is not None else self.cfg['budget']
+    self.holder_kind = {}
     lines = []
     out = self.block(env, ind + 1, lines, top=True)
     if out is not None and final_return:
@@ -1021,6 +1691,19 @@ def _module(draw, cfg):
     g.helpers.append((name, n))
   nhelp_meta = dict(g.meta)
   g.meta = {}
+  if cfg['kwpartials'] and cfg['calls'] and cfg['tracer'] and not cfg['pure'] and draw(st.integers(0, 99)) < 45:
+    # module-level partial objects created WITH keywords: callable from everywhere, their stored
+    # keywords are part of the observed post-state (vf.diffobs)
+    g.note('module_kwpartials')
+    lines.append('P0 = partial(ext2, k=%d)' % draw(st.integers(1, 4)))
+    g.mpartials.append(('P0', ['%s(%s)', '%s(%s, k=%s)', '%s(%s, y=%s)', '%s(%s, %s)', '%s(%s, **{"k": %s})', '%s(%s, y=%s, k=%s)']))
+    lines.append('P1 = partial(ext2, y=%d)' % draw(st.integers(1, 4)))
+    g.mpartials.append(('P1', ['%s(%s)', '%s(%s, y=%s)', '%s(%s, k=%s)', '%s(%s, **{"y": %s})']))
+    two = [hn for hn, n_ in g.helpers if n_ == 2]
+    if two:
+      lines.append('P2 = partial(%s, y=%d)' % (two[0], draw(st.integers(0, 3))))
+      g.mpartials.append(('P2', ['%s(%s)', '%s(%s, y=%s)']))
+    lines.append('')
   # the function under test
   lines.append('def make():')
   lines.append('  c0 = 10')
